@@ -193,7 +193,12 @@ def _construct(ctx, inp, desc, irows, tmpdir):
         if C:
             kw["C"] = np.array(C, dtype=np.int64)
         return M.mesh.from_arrays(Va, **kw), route
-    # file route: minimal independent writers (obj for dim <= 2, medit for tets)
+    # file route: minimal independent writers (obj for dim <= 2, medit for tets).  Variant: the file holds only part of the faces; it is read as raw
+    # data (load(raw=True)), the caller appends the remaining faces to the raw container, and the mesh is built from that
+    split = 0
+    if not C and len(F) >= 2 and desc["seed"] % 3 != 1:
+        split = max(1, len(F) // 3)
+        ctx.cls("route:file_raw_then_append")
     if C:
         path = os.path.join(tmpdir, "in.mesh")
         with open(path, "w") as f:
@@ -213,10 +218,14 @@ def _construct(ctx, inp, desc, irows, tmpdir):
         with open(path, "w") as f:
             for p in V:
                 f.write("v %r %r %r\n" % (float(p[0]), float(p[1]), float(p[2])))
-            for face in F:
+            for face in (F[:-split] if split else F):
                 f.write("f " + " ".join(str(v + 1) for v in face) + "\n")
             for a, b in E:
                 f.write("l %d %d\n" % (a + 1, b + 1))
+    if split:
+        data = M.mesh.load(path, raw=True)
+        data.faces += build.rows(F[-split:], irows)
+        return M.mesh.mesh._instanciate_raw_mesh_data(data), route
     return M.mesh.load(path), route
 
 
@@ -333,6 +342,20 @@ def _check_norm(ctx, m, inp, desc, route):
     ctx.check(all(len(e) == 2 and e[0] < e[1] for e in edges), "norm", "edges_canonical", "edge_not_low_first", "an edge is not stored low index first (or is a self-loop)",
               bad=[e for e in edges if not (len(e) == 2 and e[0] < e[1])][:5])
     ctx.check(all(0 <= v < nV for e in edges for v in e), "norm", "edges_range", "invalid_edge_survives", "an out-of-range edge survived construction")
+    # stored edges behave the same whatever container the caller's rows were (hashable, comparable with a pair)
+    same_behaviour = True
+    try:
+        for e_raw, e in zip(m.edges, edges):
+            hash(e_raw)
+            if not bool(e_raw == e):
+                same_behaviour = False
+                break
+        _ = set(m.edges)
+    except Exception:
+        same_behaviour = False
+    ctx.check(same_behaviour, "norm", "edges_rowtype", "stored_edge_behaves_differently_for_some_row_type",
+              "a stored edge is not hashable / does not compare equal to its (low, high) pair: later use depends on the container type of the input rows",
+              irows=desc["irows"], example_type=type(m.edges[0]).__name__ if len(m.edges) else None)
     ctx.check(sorted(edges) == sorted(exp_edges), "norm", "edges", "edge_list_mismatch",
               "edge list is not the declared valid edges plus every face side exactly once", n=len(edges), want=len(exp_edges),
               missing=sorted(set(exp_edges) - set(edges))[:5], extra=sorted(set(edges) - set(exp_edges))[:5])
